@@ -85,6 +85,17 @@ StatsOf(pages, buckets, ps, t) ==
        leafAlloc |-> (lp + lo) * ps, leafInuse |-> SumSeq(pages, 1, leafUse),
        bucketN |-> SumSeq(buckets, 1, bN), inlineBucketN |-> SumSeq(buckets, 1, inlN), inlineBucketInuse |-> SumSeq(buckets, 1, inlUse)]
 
+\* `bbolt stats` (cmd/bbolt/command/command_stats.go): BucketStats.Add over the top-level buckets - every field is
+\* the sum, Depth the maximum.  L = the sequence of StatsOf records of the top-level buckets.
+AggStats(L) ==
+   LET sum(f) == SumFrom([i \in 1..Len(L) |-> L[i][f]], 1)
+       ds == {L[i].depth : i \in 1..Len(L)}
+   IN [branchPageN |-> sum("branchPageN"), branchOverflowN |-> sum("branchOverflowN"), leafPageN |-> sum("leafPageN"),
+       leafOverflowN |-> sum("leafOverflowN"), keyN |-> sum("keyN"),
+       depth |-> IF ds = {} THEN 0 ELSE CHOOSE m \in ds : \A x \in ds : x <= m,
+       branchAlloc |-> sum("branchAlloc"), branchInuse |-> sum("branchInuse"), leafAlloc |-> sum("leafAlloc"), leafInuse |-> sum("leafInuse"),
+       bucketN |-> sum("bucketN"), inlineBucketN |-> sum("inlineBucketN"), inlineBucketInuse |-> sum("inlineBucketInuse"), buckets |-> Len(L)]
+
 (***************************************************************************)
 (* Closed model of the node algebra on ONE bucket tree with unit-weight    *)
 (* keys: a node holds a number of keys (leaf) or children (branch);        *)
